@@ -235,6 +235,26 @@ def rule_r5_mut_self(header, body, log, where):
     return header, body
 
 
+def rule_r6_mut_param(header, body, log, where):
+    """`fn f(.., mut x: T, ..) { B }` -> `fn f(.., x: T, ..) { let mut x_ = x; B[x := x_] }` (opt-in, `rules=R6`):
+       lets loop invariants name the parameter's entry value.  Same moves, same mutations."""
+    names = re.findall(r'(?<![&\w])mut\s+([a-z_]\w*)\s*:', header)
+    names = [n for n in names if n != 'self']
+    if not names:
+        return header, body
+    for n in names:
+        header = re.sub(r'(?<![&\w])mut\s+' + n + r'(\s*:)', n + r'\1', header, count=1)
+        kind = rs.code_mask(body)
+        out, last, cnt = [], 0, 0
+        for s_, e_, _ in rs.find_code(body, kind, r'(?<![\w.])' + n + r'\b', 0, len(body)):
+            out.append(body[last:s_]); out.append(n + '_'); last = e_; cnt += 1
+        out.append(body[last:])
+        body = ''.join(out)
+        body = '{ let mut %s_ = %s;' % (n, n) + body[1:]
+        log.hit('R6.mut_param', 1, '%s: %s (%d uses renamed)' % (where, n, cnt))
+    return header, body
+
+
 def _receiver_start(body, kind, dot):
     """Walk back from the '.' of `.any(` over a postfix chain to the start of the receiver."""
     i = dot
@@ -412,6 +432,8 @@ def apply_fn(d, log, fnmap, out_lineno):
         header = header[:pc + 1] + m.group(1) + '(' + d.ret + ': ' + m.group(2).strip() + ')' + m.group(3)
     # body rewrites (closed list)
     header, body = rule_r5_mut_self(header, body, log, where)
+    if 'R6' in d.opts.get('rules', ''):
+        header, body = rule_r6_mut_param(header, body, log, where)
     if 'R1' not in d.norules:
         body = rule_r1_break(body, log, where)
     body = rule_r2_underscore_closure(body, log, where)
